@@ -213,26 +213,28 @@ pub fn sanitise_twin(rng: &mut StdRng, name: &str) -> Option<String> {
 
 /// Degenerate but well-formed call sequences: nothing at all, only barriers, only thread-local systems,
 /// batches over such builders, (twice) the same unnamed controller type.
-pub fn gen_degenerate(rng: &mut StdRng) -> Prog {
-    let tiny = |rng: &mut StdRng| -> Vec<Op> {
-        match rng.gen_range(0..4) {
+/// `inner_tl`: thread-local systems also on builders that are handed to add_batch (the scenario of known finding
+/// KF1 - only where that finding is handled).
+pub fn gen_degenerate(rng: &mut StdRng, inner_tl: bool) -> Prog {
+    let tiny_of = |rng: &mut StdRng, tl_ok: bool| -> Vec<Op> {
+        match rng.gen_range(0..if tl_ok { 4 } else { 2 }) {
             0 => vec![],
             1 => (0..rng.gen_range(1..=3)).map(|_| Op::Barrier).collect(),
             2 => (0..rng.gen_range(1..=3)).map(|i| Op::Tl { r: vec![i + 1], w: vec![] }).collect(),
             _ => vec![Op::Barrier, Op::Tl { r: vec![], w: vec![1] }, Op::Barrier],
         }
     };
-    let mut ops = tiny(rng);
+    let mut ops = tiny_of(rng, true);
     for _ in 0..rng.gen_range(0..=2) {
         let ctl = rng.gen_range(0..4);
-        ops.push(Op::Batch { ctl, n: rng.gen_range(0..=2), multi: rng.gen_bool(0.4), inner: Prog { ops: tiny(rng) }, deps: vec![], t: 3, name: String::new() });
+        ops.push(Op::Batch { ctl, n: rng.gen_range(0..=2), multi: rng.gen_bool(0.4), inner: Prog { ops: tiny_of(rng, inner_tl) }, deps: vec![], t: 3, name: String::new() });
         if rng.gen_bool(0.5) {
             // a second unnamed batch with the same controller type
-            ops.push(Op::Batch { ctl, n: 1, multi: false, inner: Prog { ops: tiny(rng) }, deps: vec![], t: 3, name: String::new() });
+            ops.push(Op::Batch { ctl, n: 1, multi: false, inner: Prog { ops: tiny_of(rng, inner_tl) }, deps: vec![], t: 3, name: String::new() });
         }
     }
     if rng.gen_bool(0.3) {
-        ops.extend(tiny(rng));
+        ops.extend(tiny_of(rng, true));
     }
     Prog { ops }
 }
